@@ -32,11 +32,24 @@ Input classes added in round 3 (each is one family of realistic regressions):
                    units / exact origins / exactly coincident pairs: the
                    ordinary units must get what they get alone (monitor
                    per-index, operation names carry {class}).
+Round 4:
+  entry-points     the less common vectorised entry points (gen/c04entries.py:
+                   eigenvector, diagonalize, inv, commute, apply(ndarray),
+                   regular_polygon / from_angle / polygon formulas with array
+                   parameters, get_origin / get_base_tangent with a shape, the
+                   queries of Subspace, Hyperplane, PointPair, Segment, Polygon,
+                   Horosphere, Geodesic, TangentVector, projective charts and
+                   simplices, causal classifiers), each compared per index with
+                   the unit call and, where one exists, with its defining
+                   relation by hand (monitor per-index, keys per-index/<entry>/...).
+                   commute[pairwise] and BoundaryArc composites fired on the
+                   pinned tree (F45, F46, repaired) and are part of the table.
 
 The axis order for pairwise is the one the property fixes (object axes first);
 the repository's two baseline-failing tests assume the opposite.
 """
 import math
+import os
 import numpy as np
 
 from ..run import Workload
@@ -45,6 +58,7 @@ from ..ref import hyp as rh
 from ..ref import proj as rp
 from ..gen import projobjs as G
 from ..gen import c04extra as GX
+from ..gen import c04entries as GE
 
 ID = "C04"
 RULE = ("cases = (operation, object class, dimension 1..4, object composite shape "
@@ -57,7 +71,10 @@ RULE = ("cases = (operation, object class, dimension 1..4, object composite shap
         "plus: the same composites in 6 non-C memory layouts (2 construction routes); "
         "generic objects with per-instance (unit, aux, dual) ranks in "
         "{(1..3,0,0),(2,2,0),(2,3,1),(1,2,2),(3,1,0)} through apply in the three modes; "
-        "point composites with 1..2 exactly lightlike / exact-origin / coincident units")
+        "point composites with 1..2 exactly lightlike / exact-origin / coincident units; "
+        "20 further vectorised entry points x composite shapes {(3,),(2,3),(),(1,3),(2,1,3),(4,)} "
+        "x input variants (repeated eigenvalues, mixed commuting / nearly commuting / "
+        "large-commutator pairs, array-valued radius or angle)")
 ASSUMPTIONS = [
     "pairwise axis order is the property's: object axes first, then "
     "transformation axes; entry [i][j] = transformation j applied to unit i",
@@ -74,6 +91,14 @@ ASSUMPTIONS = [
     "metric operations (distance, origin_to, tangent vectors) are judged on the "
     "ordinary units only; tangent vectors based at a degenerate unit are not "
     "pushed through point_along / isometry_to / origin_to (undefined there)",
+    "Transformation.commute is judged only for pairs whose commutator is within "
+    "tol/100 of, or further than 100 tol from, the identity in all four orders of "
+    "composition (the answer in between depends on rounding)",
+    "eigenvector(ev) is driven only on composites whose every unit has ev (the "
+    "unit call raises, the composite returns a zero vector, when it is absent)",
+    "not enforced, reported in findings/: commute(broadcast='pairwise') and composite "
+    "BoundaryArc construction raise ValueError on the pinned tree; "
+    "hyperbolic.spacelike reduces to one scalar",
     "generic objects with per-instance ranks are judged through apply and "
     "flatten_to_unit only (reshape / __getitem__ / stacking of such objects go "
     "through the class constructor, whose rank arguments are the caller's)",
@@ -1171,6 +1196,86 @@ def wl_generic_ranks(run, rng, idx):
     run.note_class("generic-ranks", name, ranks, len(oshape), len(tshape), mode, tkind)
 
 
+# ---------------------------------------------------------------------------
+# the less common vectorised entry points, one per-index law each
+
+# Every public operation that accepts a composite (or an array-valued
+# parameter) is an instance of the property, not only the ones the library's
+# own code uses.  The rarely used ones have their own vectorisation
+# bookkeeping (fancy-index assignments, a reduction over the wrong axes, a
+# broadcast mode picked by hand) and no other monitor drives them.  Entries and
+# their input classes live in gen/c04entries.py.  (seeded changes C04-r4-1:
+# eigenvector(ev) kept the LAST instead of the first matching eigenvector of a
+# unit with a repeated eigenvalue, in composites only; C04-r4-2:
+# regular_polygon(m, radius=array) grouped vertex k of every polygon instead of
+# one m-gon per radius; C04-r4-3: commute() scaled its tolerance by the largest
+# commutator entry of the WHOLE composite.)
+ENTRY_SHAPES = [(3,), (2, 3), (), (1, 3), (2, 1, 3), (4,)]
+
+
+def _entry_dev(rule, got, want):
+    got, want = np.asarray(got), np.asarray(want)
+    if got.shape != want.shape:
+        return np.inf
+    if rule == "exact":
+        return 0.0 if np.array_equal(got, want) else 1.0
+    if rule == "num":
+        return rp.rel_dev(got, want)
+    if rule == "rows":
+        return rp.max_row_dev(got, want)
+    if rule == "mat":
+        return rp.max_mat_dev(got, want)
+    if rule == "tangent":
+        return rp.tangent_dev(got, want)
+    if rule == "tangent-raw":
+        return rp.tangent_dev(got, want, project=(False, False))
+    raise ValueError(rule)
+
+
+def wl_entry_points(run, rng, idx):
+    entries = GE.ENTRIES
+    L = len(entries)
+    name, entry, min_dim = entries[idx % L]
+    rnd = idx // L
+    shape = pick(ENTRY_SHAPES, rnd)
+    variant = rnd + rnd // len(ENTRY_SHAPES)
+    n = min_dim + rnd % (5 - min_dim) if run.tier == "thorough" else min_dim + rnd % (4 - min_dim)
+    spec = entry(rng, n, shape, variant)
+    case = dict({"entry": name, "dimension": n, "shape": list(shape), "variant": variant}, **spec.inputs)
+    run.current_case = case
+    J = Judge(run, "per-index", name, (name,), case)
+    ok, comp = J.call("composite", lambda: spec.call(None),
+                      unitdesc="composite-rank%d" % len(shape) if shape else "unit")
+    if not ok:
+        return
+    want_shape = tuple(shape if spec.out_shape is None else spec.out_shape)
+    for part in spec.rules:
+        if not J.mon.require(np.shape(comp[part])[:len(want_shape)] == want_shape and
+                             np.ndim(comp[part]) >= len(want_shape),
+                             "per-index/%s/%s/shape" % (name, part),
+                             "%s: %s of a composite of shape %r has array shape %r"
+                             % (name, part, want_shape, np.shape(comp[part])), case):
+            return
+    for i in np.ndindex(*want_shape):
+        reason = spec.skip(i) if spec.skip else None
+        if reason:
+            J.mon.skip(reason)
+            continue
+        oku, unit = J.call("unit", lambda: spec.call(i))
+        if not oku:
+            continue
+        at_i = {}
+        for part, (rule, tol) in spec.rules.items():
+            at_i[part] = np.asarray(comp[part])[i]
+            J.dev(part, _entry_dev(rule, at_i[part], unit[part]), i, tol=max(tol, 1e-300))
+        if spec.hand:
+            for label, err, tol in spec.hand(i, at_i):
+                J.dev(label, err, i, tol=tol, unitdesc="by-hand",
+                      what="%s: the composite's entry %r fails the defining relation (%s)"
+                      % (name, i, label))
+    run.note_class("entry-points", name, n, shape, *spec.sig)
+
+
 def _reshapes(shape):
     total = int(np.prod(shape))
     out = [(total,), (1, total), (total, 1)]
@@ -1193,4 +1298,5 @@ WORKLOADS = [
     Workload("layouts", wl_layouts, quick=84, thorough=1600),
     Workload("generic-ranks", wl_generic_ranks, quick=120, thorough=2400),
     Workload("special-units", wl_special_units, quick=48, thorough=960),
+    Workload("entry-points", wl_entry_points, quick=240, thorough=4800),
 ]
